@@ -1,6 +1,8 @@
 import PartituraModel.Wire
 import PartituraModel.Model.StepMap
 import PartituraModel.Model.StepMapPart
+import PartituraModel.Model.StepMapNotes
+import PartituraModel.Model.StepMapHist
 
 open Wire Model Model.StepMap
 
@@ -16,6 +18,18 @@ The measure maps take the part description (round 2; the float `divs_per_beat` i
   mnP  PART k x*        measure_number_map
   mpP  PART k x*        metrical_position_map
   sorted k t*           are the start times in non-decreasing order (what the table builders need of iter_all)
+  na KIND PART  nks (t fifths mode)*  ks ts mp  n (idx onset pitch)*
+                        KIND = note | rest; ks ts mp = the include_* flags; the note list in the order handed in;
+                        answer: one tuple per row of the array (idx, onset_div, pitch, then the cells of the
+                        columns present: ks_fifths ks_mode | ts_beats ts_beat_type ts_mus_beats |
+                        is_downbeat rel_onset_div tot_measure_div)
+  cols ENTRY ks ts mp   ENTRY = note_list | rest_list | note_part | rest_part: the names of the columns the three maps
+                        add to the array, in dtype order (table regenerated from the live functions)
+  hist q0 n OP*         the part an edit history leaves (Model/StepMapHist.lean), OP =
+                          new id t KIND mb|-   KIND = ts b bt | ks f mode | clef staff sign line|- oc|- | ms e num|-
+                                                      | other e|- staff|-
+                          readd id | remove id | mus k (b bt v)* | not | setmb k (b bt v)* | qd t q | q
+                        answer: npoints SPAN qd ts musical ms ks clefs staffs (the state the maps read)
 Responses: a list with one entry per queried position, or `err` when the map raises.
 -/
 
@@ -73,6 +87,62 @@ def fmtMM : Option (Int × Int) → String
   | some (s, e) => fmtTuple [fmtInt s, fmtInt e]
   | none => "nan"
 
+def fmtColRow (r : ColRow) : String :=
+  fmtTuple ([fmtNat r.idx, fmtInt r.onset, fmtInt r.pitch]
+    ++ (match r.ks with | some (a, b) => [fmtInt a, fmtInt b] | none => [])
+    ++ (match r.ts with | some (a, b, c) => [fmtInt a, fmtInt b, fmtInt c] | none => [])
+    ++ (match r.mp with | some (a, b, c) => [fmtInt a, fmtInt b, fmtOInt c] | none => []))
+
+def pTbl : P (List ((Nat × Nat) × Nat)) :=
+  list (do let b ← nat; let bt ← nat; let v ← nat; pure ((b, bt), v))
+
+def pKind : P EKind := do
+  let tag ← tok
+  match tag with
+  | "ts" => do let b ← nat; let bt ← nat; pure (.ts b bt)
+  | "ks" => do let f ← int; let m ← pMode; pure (.ks f m)
+  | "clef" => do let st ← int; let sg ← str; let ln ← opt int; let oc ← opt int; pure (.clef st sg ln oc)
+  | "ms" => do let e ← int; let n ← opt int; pure (.measure e n)
+  | "other" => do let e ← opt int; let st ← opt int; pure (.other e st)
+  | _ => P.fail
+
+def pHistOp : P HistOp := do
+  let tag ← tok
+  match tag with
+  | "new" => do let id ← nat; let t ← int; let k ← pKind; let mb ← opt nat; pure (.new id t k mb)
+  | "readd" => do let id ← nat; pure (.readd id)
+  | "remove" => do let id ← nat; pure (.remove id)
+  | "mus" => do let tbl ← pTbl; pure (.useMusical tbl)
+  | "not" => pure .useNotated
+  | "setmb" => do let tbl ← pTbl; pure (.setMB tbl)
+  | "qd" => do let t ← int; let q ← nat; pure (.setQD t q)
+  | "q" => pure .query
+  | _ => P.fail
+
+def fmtMode : Mode → String
+  | .major => "major"
+  | .minor => "minor"
+
+def fmtSpan : Span → String
+  | none => "-"
+  | some (a, b) => fmtTuple [fmtInt a, fmtInt b]
+
+def insertInt (k : Int) : List Int → List Int
+  | [] => [k]
+  | a :: l => if k ≤ a then k :: a :: l else a :: insertInt k l
+
+def fmtDescribed (d : Described) : String :=
+  " ".intercalate [
+    fmtNat d.part.npoints, fmtSpan d.part.span,
+    fmtList (fun e => fmtTuple [fmtInt e.1, fmtNat e.2]) d.part.qd,
+    fmtList (fun (s : TimeMap.TSig) => fmtTuple [fmtInt s.t, fmtNat s.beats, fmtNat s.beatType, fmtNat s.mb]) d.part.ts,
+    fmtBool d.part.musical,
+    fmtList (fun m => fmtTuple [fmtInt m.1, fmtInt m.2.1, fmtOpt fmtInt m.2.2]) d.part.ms,
+    fmtList (fun e => fmtTuple [fmtInt e.1, fmtInt e.2.1, fmtMode e.2.2]) d.kss,
+    fmtList (fun (c : RawClef) =>
+      fmtTuple [fmtInt c.1, fmtInt c.2.1, c.2.2.1, fmtOpt fmtInt c.2.2.2.1, fmtOpt fmtInt c.2.2.2.2]) d.clefs,
+    fmtList fmtInt ((otherStaffs d.others).foldr insertInt [])]
+
 def orErr (o : Option String) : String := o.getD "err"
 
 def handle (ts : List String) : String :=
@@ -102,6 +172,22 @@ def handle (ts : List String) : String :=
       fun (p, xs) =>
         (xs.mapM fun x => metricalMapP p x).map fun rows =>
           fmtList (fun (p : Int × Option Int) => fmtTuple [fmtInt p.1, fmtOInt p.2]) rows
+  | "na" :: kind :: rest =>
+    orErr <| (run (do let p ← pPart; let kss ← pKss; let ks ← bool; let ts ← bool; let mp ← bool
+                      let ns ← list (do let i ← nat; let o ← int; let pi ← int; pure (⟨i, o, pi⟩ : NoteIn))
+                      pure (p, kss, (⟨ks, ts, mp⟩ : NAFlags), ns)) rest).bind
+      fun (p, kss, fl, ns) =>
+        (if kind = "rest" then restArrayOfPart p kss fl ns else noteArrayOfPart p kss fl ns).map fun rows =>
+          fmtList fmtColRow rows
+  | "hist" :: rest =>
+    orErr <| (run (do let q0 ← nat; let ops ← list pHistOp; pure (q0, ops)) rest).map
+      fun (q0, ops) => fmtDescribed (describe (hpRun q0 ops))
+  | "cols" :: entry :: rest =>
+    orErr <| (run (do let ks ← bool; let ts ← bool; let mp ← bool; pure (⟨ks, ts, mp⟩ : NAFlags)) rest).bind
+      fun fl =>
+        (naColumns (match entry with
+          | "rest_list" => .restList | "note_part" => .notePart | "rest_part" => .restPart | _ => .noteList) fl).map
+          fun cols => fmtList id cols
   | "sorted" :: rest =>
     orErr <| (run (list int) rest).map fun ts => fmtBool (sortedTimes ts)
   | _ => "bad-request"
